@@ -12,6 +12,8 @@ BUILD = os.path.join(ROOT, 'build')
 
 SEMANTIC = [
     (r'postcondition not satisfied', 'ensures'),
+    (r'unable to prove post-?condition of closure', 'ensures(closure)'),
+    (r'unable to prove pre-?condition of closure|closure .*precondition', 'requires@call'),
     (r'precondition not satisfied', 'requires@call'),
     (r'invariant not satisfied at end of loop body', 'invariant(end of body)'),
     (r'invariant not satisfied before loop', 'invariant(before loop)'),
